@@ -11,6 +11,8 @@ PROP = "C05"
 MODULES = ["C05", "C05a"]
 GEN = ["Crc"]
 MATCHERS = {}
+# extra files for the drift detector (the front ends' byte/bit plumbing lives here)
+ANCHORS = ["okdmr/dmrlib/utils/bits_bytes.py"]
 
 # the ETSI TS 102 361-1 generator polynomials (without the leading term), hard-coded on purpose:
 # the oracle must not read them from the code under test
@@ -151,18 +153,25 @@ def engine_cases(ctx, crcmod):
         if fw != ref_feed_width(w):
             ctx.fail("feed-width", {"config": name}, f"{name}: feed width is not the documented derivation", expected=ref_feed_width(w), actual=fw)
 
+        prev = [None]
+
         def one(bits, tag, sample=False):
-            rb = call(bit_calc.calculate_checksum, bitarray(bits))
-            rt = call(tab_calc.calculate_checksum, bitarray(bits))
+            in_b, in_t = bitarray(bits), bitarray(bits)
+            rb = call(bit_calc.calculate_checksum, in_b)
+            rt = call(tab_calc.calculate_checksum, in_t)
             sb, st = out_bits(rb), out_bits(rt)
             arg = barg(bits)
+            if in_b != bits or in_t != bits:
+                ctx.fail("input-mutated", {"component": "engine", "config": name, "bits": arg}, f"{name}.calculate_checksum altered the caller's bit buffer", expected=arg, actual=f"{barg(in_b)} / {barg(in_t)}")
             pairs_b.append((f"crc.bit {name} {arg}", sb))
             pairs_t.append((f"crc.tab {name} 0 {arg}", st))
             exp = "".join(str(x) for x in poly_rem(bits, w))
             ctx.case((name, tag, arg), nontrivial=bits.any() if len(bits) else False,
                      sample={"config": name, "bits": arg, "bitwise": sb, "table": st, "remainder": exp} if sample else None)
             ctx.count(f"engine:{name}:len%fw={'0' if len(bits) % fw == 0 else 'short-last-chunk'}")
-            inp = {"component": "engine", "config": name, "bits": arg}
+            # the calculators are re-used objects: the message they saw before is part of the input
+            inp = {"component": "engine", "config": name, "bits": arg, "previous": prev[0]}
+            prev[0] = arg
             if sb != exp:
                 ctx.fail("bitwise-not-remainder", inp, f"{name} bit-by-bit register differs from message(x)*x^{w} mod G", expected=exp, actual=sb)
             if st != exp:
@@ -177,6 +186,11 @@ def engine_cases(ctx, crcmod):
                 kinds += ["zeros"]
             for kind in kinds:
                 one(rand_bits(ctx.rng, n, kind), "len", sample=(n == 23 and kind == "random" and w == 9))
+            # history: the calculators are re-used objects; the empty and a short message again after longer ones
+            if n % 8 == 5:
+                one(bitarray(), "empty-again")
+                one(rand_bits(ctx.rng, ctx.rng.randint(1, fw if isinstance(fw, int) and fw > 0 else 8)), "short-again")
+                ctx.count(f"engine:{name}:history-rechecks", 2)
             # little-endian container: correspondence of the table register only (see DESIGN §8)
             if n % 3 == ctx.seed % 3 or n < 40:
                 b = rand_bits(ctx.rng, n)
@@ -184,6 +198,11 @@ def engine_cases(ctx, crcmod):
                 rt = call(tab_calc.calculate_checksum, le)
                 pairs_le.append((f"crc.tab {name} 1 {barg(b)}", out_bits(rt)))
                 ctx.case((name, "le", barg(b)))
+        # ---- a few long messages (beyond the dense range), lengths around multiples of the feed width
+        for _ in range(ctx.budget(12, 60)):
+            n = ctx.rng.choice([ctx.rng.randint(maxlen + 1, 2100), 8 * ctx.rng.randint(50, 260) + ctx.rng.choice([-1, 0, 1]), 9 * ctx.rng.randint(45, 230) + ctx.rng.choice([-1, 0, 1])])
+            one(rand_bits(ctx.rng, n), "long")
+            ctx.count(f"engine:{name}:long")
         # ---- unit vectors (with linearity they determine every CRC of that length)
         unit_lengths = list(range(1, 41)) + [48, 64, 72, 77, 80, 96, 120]
         if ctx.thorough():
@@ -243,6 +262,13 @@ def engine_cases(ctx, crcmod):
                 exp = "".join(str(x) for x in poly_rem(int2ba(idx, length=ref_feed_width(w)), w))
                 if barg(e) != exp:
                     ctx.fail("lookup-table", {"config": name, "index": idx}, f"{name}: lookup table entry is not the remainder of its index", expected=exp, actual=barg(e))
+        # the table the table calculator really holds (white box, skipped if the attribute is gone)
+        own = getattr(getattr(tab_calc, "_crc_register", None), "_lookup_table", None)
+        if isinstance(own, list):
+            pairs_tbl.append((f"crc.tbllen {name}", str(len(own))))
+            for idx, e in enumerate(own):
+                pairs_tbl.append((f"crc.tbl {name} {idx}", barg(e) if isinstance(e, bitarray) else repr(type(e))))
+                ctx.case((name, "own-tbl", idx), nontrivial=idx != 0)
         if not ctx.search_only and ctx.driver_ok:
             ctx.correspond(f"{name}.bitwise", pairs_b)
             ctx.correspond(f"{name}.table", pairs_t)
@@ -286,6 +312,8 @@ def front_cases(ctx, CRC8, CRC9, CRC16, CRC32, CrcMasks):
         le = i % 5 == 4
         data = bitarray(a.tolist(), endian="little") if le else bitarray(a)
         r = call(CRC8.calculate, data)
+        if data.tolist() != a.tolist():
+            ctx.fail("input-mutated", {"component": "crc8", "bits": barg(a)}, "CRC8.calculate altered the caller's bit buffer", expected=barg(a), actual=barg(data))
         pairs.append((f"crc8 {int(le)} {barg(a)}", out_int(r)))
         ctx.case(("crc8", le, barg(a)))
         ctx.count("front:crc8")
@@ -293,7 +321,7 @@ def front_cases(ctx, CRC8, CRC9, CRC16, CRC32, CrcMasks):
         if not le and r != good:
             ctx.fail("crc8-front", {"component": "crc8", "bits": barg(a)}, "CRC8.calculate is not the plain remainder modulo x^8+x^2+x+1", expected=good, actual=out_int(r))
         if not le:
-            for v in (good, good ^ (1 << rng.randrange(8)), 256 + good, -1, rng.randrange(256)):
+            for v in (good, good ^ (1 << rng.randrange(8)), 256 + good, -1, rng.randrange(256), 0, 255, 256):
                 c = call(CRC8.check, bitarray(a), v)
                 pairs.append((f"crc8.check 0 {barg(a)} {v}", out_bool(c)))
                 ctx.case(("crc8.check", barg(a), v))
@@ -316,7 +344,7 @@ def front_cases(ctx, CRC8, CRC9, CRC16, CRC32, CrcMasks):
             if r != good:
                 ctx.fail("crc16-front", {"component": "crc16", "data": hex_str(d), "mask": m.name}, "CRC16.calculate is not (inverted remainder) xor mask", expected=good, actual=out_int(r))
             if good <= 0xFFFF:
-                for v in (good, good ^ (1 << rng.randrange(16)), 0x10000 | good, -1):
+                for v in (good, good ^ (1 << rng.randrange(16)), 0x10000 | good, -1, 0, 0xFFFF, 0x10000):
                     c = call(CRC16.check, d, v, m)
                     pairs.append((f"crc16.check {hex_str(d)} {v} {m.value}", out_bool(c)))
                     ctx.case(("crc16.check", d, v, m.name))
@@ -332,7 +360,7 @@ def front_cases(ctx, CRC8, CRC9, CRC16, CRC32, CrcMasks):
         n = rng.choice([10, 16, 22, 10, 16, 22, 0, 1, rng.randint(0, 30)])
         d = bytes(rng.getrandbits(8) for _ in range(n))
         m = masks[i % len(masks)] if i % 3 else rng.choice([CrcMasks.Rate12DataContinuation, CrcMasks.Rate34DataContinuation, CrcMasks.Rate1DataContinuation])
-        c32v = rng.getrandbits(32)
+        c32v = rng.choice([rng.getrandbits(32), rng.getrandbits(32), 1, 255, 256, rng.getrandbits(24), (1 << 24) - 1, 1 << 31, (1 << 32) - 1, rng.getrandbits(8) << 24]) or 1
         variants = [
             ("none", None, []),
             ("i:0", 0, []),
@@ -354,7 +382,7 @@ def front_cases(ctx, CRC8, CRC9, CRC16, CRC32, CrcMasks):
                     ctx.fail("crc9-front", {"component": "crc9", "data": hex_str(d), "serial": sn, "mask": m.name, "crc32": tag},
                              "CRC9.calculate_from_parts is not (inverted remainder of data|crc32|dbsn) xor mask", expected=good, actual=out_int(r))
                 if sn % 16 == 3:
-                    for v in (good, good ^ (1 << rng.randrange(9)), 512 + (good & 511), -1):
+                    for v in (good, good ^ (1 << rng.randrange(9)), 512 + (good & 511), -1, 0, 511, 512):
                         c = call(CRC9.check, d, sn, v, m, arg)
                         pairs.append((f"crc9.check {hex_str(d)} {sn} {v} {m.value} {tag}", out_bool(c)))
                         ctx.case(("crc9.check", d, sn, v, m.name, tag))
@@ -392,7 +420,7 @@ def front_cases(ctx, CRC8, CRC9, CRC16, CRC32, CrcMasks):
         if r != good:
             ctx.fail("crc32-front", {"component": "crc32", "data": hex_str(d)}, "CRC32.calculate is not the remainder over the pairwise swapped octets, MSB first", expected=good, actual=out_int(r))
         if i % 3 == 0:
-            for v in (good, good ^ (1 << rng.randrange(32)), (1 << 32) | good, -1):
+            for v in (good, good ^ (1 << rng.randrange(32)), (1 << 32) | good, -1, 0, 0xFFFFFFFF, 1 << 32):
                 c = call(CRC32.check, d, v)
                 pairs.append((f"crc32.check {hex_str(d)} {v}", out_bool(c)))
                 ctx.case(("crc32.check", d, v))
@@ -589,8 +617,15 @@ def replay(obj):
         w = widths[name]
         bits = bits_of(inp["bits"])
         exp = "".join(str(x) for x in poly_rem(bits, w))
-        rb = out_bits(call(lambda: crcmod.BitCrcCalculator(enums[name].ETSI_DMR, False).calculate_checksum(bitarray(bits))))
-        rt = out_bits(call(lambda: crcmod.BitCrcCalculator(enums[name].ETSI_DMR, True).calculate_checksum(bitarray(bits))))
+        cb = crcmod.BitCrcCalculator(enums[name].ETSI_DMR, False)
+        ct = crcmod.BitCrcCalculator(enums[name].ETSI_DMR, True)
+        if inp.get("previous") is not None:
+            # same calculator objects, the message they processed before first
+            call(cb.calculate_checksum, bits_of(inp["previous"]))
+            call(ct.calculate_checksum, bits_of(inp["previous"]))
+            print(f"(after a calculation of {inp['previous']} on the same calculator objects)")
+        rb = out_bits(call(cb.calculate_checksum, bitarray(bits)))
+        rt = out_bits(call(ct.calculate_checksum, bitarray(bits)))
         print(f"implementation bit-by-bit: {rb}\nimplementation table:      {rt}\nremainder (reference):     {exp}")
         lines = [f"crc.bit {name} {inp['bits']}", f"crc.tab {name} 0 {inp['bits']}"]
         still = int(rb != exp or rt != exp)
